@@ -2,6 +2,8 @@
 package c01
 
 import (
+	"bytes"
+	"encoding/binary"
 	"encoding/json"
 	"fmt"
 	"io"
@@ -9,6 +11,8 @@ import (
 	"net"
 	"os"
 	"strings"
+	"sync"
+	"sync/atomic"
 	"testing"
 	"time"
 
@@ -411,6 +415,109 @@ func runResidues(rec *vcommon.Rec, carrier string, maxN int) {
 	}
 }
 
+// runManyShort: thousands of short logical connections on one session, 8 at a time; on each the target (or the
+// application) writes 700 keyed bytes and closes at once, and the other end must read exactly those bytes. The last data
+// and the end-of-stream mark travel back to back: the place where the tail of a stream can get lost.
+func runManyShort(rec *vcommon.Rec, carrier, writer string, total int) {
+	c := map[string]interface{}{"scenario": "many-short-connections", "carrier": carrier, "writer": writer, "connections": total}
+	rec.Mark(c)
+	p, err := e2e.Start(e2e.Options{Carrier: carrier, Tag: "n", Channels: []e2e.ChanSpec{{Name: "echo", Tagged: true}}})
+	if err != nil {
+		rec.Violation(carrier+":unix:setup-failed", c, err.Error())
+		return
+	}
+	defer p.Close()
+	var mu sync.Mutex
+	var first string
+	var ok int64
+	sem := make(chan struct{}, 8)
+	var wg sync.WaitGroup
+	for i := 0; i < total; i++ {
+		mu.Lock()
+		stop := first != ""
+		mu.Unlock()
+		if stop {
+			break
+		}
+		sem <- struct{}{}
+		wg.Add(1)
+		go func(i int) {
+			defer wg.Done()
+			defer func() { <-sem }()
+			fail := func(s string) {
+				mu.Lock()
+				if first == "" {
+					first = fmt.Sprintf("connection %d: %s", i, s)
+				}
+				mu.Unlock()
+			}
+			tag := uint64(rec.Seed())<<24 + uint64(i)
+			app, err := p.Dial("echo")
+			if err != nil {
+				fail("harness: dial " + err.Error())
+				return
+			}
+			defer app.Close()
+			var hdr [8]byte
+			binary.BigEndian.PutUint64(hdr[:], tag)
+			if _, err := app.Write(hdr[:]); err != nil {
+				fail("write of the first bytes failed: " + err.Error())
+				return
+			}
+			tgt, o := p.Targets["echo"].NextTagged(tag)
+			if o != e2e.Done {
+				if o == e2e.Stalled {
+					fail("target never connected")
+				} else {
+					fail("inconclusive: busy")
+				}
+				return
+			}
+			defer tgt.Close()
+			w, r := tgt, app
+			if writer == "app" {
+				w, r = app, tgt
+			}
+			payload := make([]byte, 700)
+			vcommon.FillKeyed(tag, 0, payload)
+			go func() {
+				w.Write(payload)
+				w.Close()
+			}()
+			var got []byte
+			var rerr error
+			done := e2e.Go(func() { got, rerr = io.ReadAll(r) })
+			switch e2e.Wait(done) {
+			case e2e.Stalled:
+				fail("reader never saw the end of the stream")
+				return
+			case e2e.Inconclusive:
+				fail("inconclusive: busy")
+				return
+			}
+			if !bytes.Equal(got, payload) {
+				fail(fmt.Sprintf("read %d of 700 bytes before the end of the stream (err=%v)", len(got), rerr))
+				return
+			}
+			atomic.AddInt64(&ok, 1)
+			e2e.Bump(700)
+		}(i)
+	}
+	wg.Wait()
+	dir := map[string]string{"target": "t2c", "app": "c2t"}[writer]
+	rec.Case(fmt.Sprintf("many-short/%s/%s/%d", carrier, writer, total), true)
+	rec.Seen("tuple(carrier,len-class,write-size,direction)", carrier+"|700-then-close x"+fmt.Sprint(total)+"|whole|"+dir)
+	rec.Stat("bytes_verified_"+dir+":"+carrier, ok*700)
+	rec.Stat("short_connections_verified:"+carrier, ok)
+	if first != "" {
+		if strings.Contains(first, "inconclusive:") || strings.Contains(first, "harness:") {
+			rec.Inconclusive("many short connections: "+first, c)
+			return
+		}
+		rec.Violation(carrier+":unix:"+dir+":tail-of-a-short-connection-lost", c, map[string]interface{}{"first_failure": first, "verified_before": ok})
+	}
+}
+
 func TestVerifC01(t *testing.T) {
 	e2e.Quiet()
 	rec := vcommon.Open()
@@ -469,8 +576,17 @@ func TestVerifC01(t *testing.T) {
 			items = append(items, item{c, "sizes"})
 		}
 	}
+	for _, c := range []string{"tcp", "ws"} {
+		if extras {
+			items = append(items, item{c, "many-short:target"}, item{c, "many-short:app"})
+		}
+	}
 	for idx, it := range items {
 		if !rec.Mine(idx) {
+			continue
+		}
+		if strings.HasPrefix(it.Lst, "many-short:") {
+			runManyShort(rec, it.Carrier, it.Lst[len("many-short:"):], rec.Pick(6000, 40000))
 			continue
 		}
 		if it.Lst == "sizes" {
